@@ -127,7 +127,15 @@ def search(ctx, N, complex_too=True):
         step, order, T = int(rng.integers(1, 5)), int(rng.integers(1, 9)), int(rng.integers(0, 6))
         length = int(rng.integers(1, 21))
         ncols = int(rng.integers(1, 4))
-        R = Richardson(step_ratio=ratio, step=step, order=order, num_terms=T)
+        # the ratio in the number types a caller may write: 2, np.int64(4), np.float32(1.6) mean the same ratios as the floats
+        ratio_given, ratio_kind = ratio, 'float'
+        if k % 5 == 3:
+            ratio = float(rng.choice([2.0, 3.0, 4.0, 10.0]))
+            ratio_given, ratio_kind = [(int(ratio), 'int'), (np.int64(ratio), 'np.int64'), (np.int32(ratio), 'np.int32')][(k // 5) % 3]
+        elif k % 5 == 4:
+            ratio_given, ratio_kind = np.float32(ratio), 'np.float32'
+            ratio = float(ratio_given)
+        R = Richardson(step_ratio=ratio_given, step=step, order=order, num_terms=T)
         Tu = min(T, length - 1)
         h0 = Fraction(float(rng.uniform(0.05, 0.5)))
         Ls = [Fraction(float(rng.normal())) for _ in range(ncols)]
@@ -142,8 +150,8 @@ def search(ctx, N, complex_too=True):
             ctx.count(1, ('reused-instance', ls <= T))
         w = R.rule(length)
         out, err, st = R(seq, steps)
-        ctx.count(1)
-        key = 'ratio=%r,step=%d,order=%d,terms=%d,len=%d' % (ratio, step, order, T, length)
+        ctx.count(1, ('search', ratio_kind))
+        key = 'ratio=%r (given as %s),step=%d,order=%d,terms=%d,len=%d' % (ratio, ratio_kind, step, order, T, length)
         rep = {'step_ratio': ratio, 'step': step, 'order': order, 'num_terms': T, 'length': length, 'L': [float(x) for x in Ls],
                'sequence': seq.tolist(), 'output': np.asarray(out).tolist(),
                'how': 'Richardson(step_ratio, step, order, num_terms)(sequence, steps)' + ('; the same instance was called on a shorter sequence just before' if k % 2 else '')}
@@ -156,6 +164,17 @@ def search(ctx, N, complex_too=True):
         res, _ = rule_certificate(ratio, step, order, Tu, w) if Tu > 0 else (Fraction(0), 0)
         kappa_ok = res <= Fraction(1, 10 ** 6)
         if not kappa_ok:
+            # a large residual is excused only when the r-matrix itself is numerically singular (pinv truncates): decided on the EXACT matrix
+            from .C06 import inverse
+            rho_ = 1 / Fraction(ratio)
+            Rm = [[Fraction(1) if c == 0 else rho_ ** (i * (step * (c - 1) + order)) for c in range(Tu + 1)] for i in range(Tu + 1)]
+            Rinv = inverse(Rm)
+            # w . R = e_0  <=>  w = row 0 of R^-1
+            w_ex = Rinv[0] if Rinv is not None else None
+            if w_ex is not None and sum(abs(v) for v in w_ex) <= 10 ** 6:
+                if ctx.violation('weights', 'Richardson(%s).rule(%d) = %r but the r-matrix is well conditioned and the exact weights are %r' % (
+                        key, length, [float(v) for v in w], [float(v) for v in w_ex]), dict(rep, weights=[float(v) for v in w], exact_weights=[float(v) for v in w_ex])):
+                    return
             continue        # numerically singular rule (pinv truncated): outside the statement
         if abs(sum(Fraction(float(v)) for v in w) - 1) > 64 * u * sum(abs(Fraction(float(v))) for v in w) * (Tu + 1) + res:
             if ctx.violation('weights-sum', 'Richardson(%s): weights sum to %r' % (key, float(np.sum(w))), rep):
